@@ -660,8 +660,9 @@ func (sema *ExprSemanticsChecker) checkArrayDeref(n *ArrayDerefNode) ExprType {
 	case AnyType:
 		return &ArrayType{AnyType{}, true}
 	case *ArrayType:
-		ty.Deref = true
-		return ty
+		// Do not set the flag on the receiver's type in place. The type may be shared with a context
+		// such as `matrix` and must not change how later expressions are typed.
+		return &ArrayType{Elem: ty.Elem, Deref: true}
 	case *ObjectType:
 		// Object filtering is available for objects, not only arrays (#66)
 
